@@ -117,6 +117,9 @@ def oracles(q, a):
         return out
     if a.E and any(ch in "Dd" for ch in a.E):
         out.append(("C10", "duplicate-buffer-kept", "the source table holds the buffer of a later duplicate submission instead of the pointer supplied first (%s)" % a.E))
+    if getattr(a, "PS", None) == 0 and q.api != 3:
+        # (two cumulative tables on the RS codecs legitimately replace the entries: the second table is the application's own)
+        out.append(("C10", "pointer-unstable", "an entry of the source table changed the pointer it reports between two calls of of_get_source_symbols_tab"))
     if getattr(a, "GI", None) == 0:
         out.append(("C10", "table-not-empty", "of_get_source_symbols_tab reported a source symbol before any symbol was submitted"))
     if getattr(a, "ED", None) == 0:
